@@ -350,7 +350,8 @@ def run(ctx):
         # ---- CID cells, one at a time
         for r, row in enumerate(base.rows):
             for c in range(1, {"D": 3, "F": 7, "C": 4}[row[0]]):
-                for value in POOL + variations(row[c]):
+                # (the format cell also under the format's other documented name)
+                for value in POOL + variations(row[c]) + (["csv", "CSV", " csv "] if row[1] == "Format" and c == 2 and kind == "delimited" else []):
                     index += 1
                     if not ctx.mine(index):
                         continue
